@@ -19,7 +19,7 @@ THOROUGH = os.environ.get("VERIF_TIER") == "thorough"
 TDHCP = 3 if THOROUGH else 2   # table sizes for the expensive _dhcp contracts
 DEFAULT = 0o4444
 G = {"g_writes": Const(0), "g_to": Const(0), "g_type": Const(0), "g_h_to": Const(0), "g_h_from": Const(0),
-     "g_h_type": Const(0), "g_h_res": Const(0), "g_msg": Const(b""), "g_to2": Const(0), "g_tlo": Const(0), "g_thi": Const(255)}
+     "g_h_type": Const(0), "g_h_res": Const(0), "g_h_id": Const(0), "g_msg": Const(b""), "g_to2": Const(0), "g_tlo": Const(0), "g_thi": Const(255)}
 
 
 def mesh_schema(cls="rf24_mesh:RF24Mesh", node_id=None, addr=None, table=None, tmax=TMAX, frame=None, trange=None, do_dhcp=None):
@@ -97,6 +97,7 @@ def abs_write_m(self, write_direct, send_type):
         self.g_h_from = h.from_node
         self.g_h_type = h.message_type
         self.g_h_res = h.reserved
+        self.g_h_id = h.frame_id
         self.g_msg = bytes(self.frame_buf.message)
     else:
         self.g_to2 = write_direct
